@@ -34,6 +34,54 @@ def _inline_flags(fn: ast.FunctionDef) -> list[ast.stmt]:
     return [s for s in body if not (isinstance(s, ast.Assign) and isinstance(s.targets[0], ast.Name) and s.targets[0].id in flags)]
 
 
+def inline_state_flags(fn: ast.FunctionDef) -> list[ast.stmt]:
+    """Locals bound once to a combination of argument-less scanner-state predicates (`state.in_braces() and state.at_parenlev()`)
+    are replaced by that combination in every test that uses them (the predicates read the mode stack and the depth; the tests that
+    use such a flag come before the branch changes either)."""
+    flags: dict[str, ast.expr] = {}
+    counts: dict[str, int] = {}
+
+    def predicate(e: ast.expr) -> bool:
+        if isinstance(e, ast.BoolOp):
+            return all(predicate(v) for v in e.values)
+        if isinstance(e, ast.UnaryOp) and isinstance(e.op, ast.Not):
+            return predicate(e.operand)
+        return isinstance(e, ast.Call) and not e.args and not e.keywords and isinstance(e.func, ast.Attribute) and \
+            isinstance(e.func.value, ast.Name) and e.func.value.id == "state"
+    for n in own_nodes(fn):
+        if isinstance(n, ast.Assign) and len(n.targets) == 1 and isinstance(n.targets[0], ast.Name):
+            counts[n.targets[0].id] = counts.get(n.targets[0].id, 0) + 1
+            if predicate(n.value):
+                flags[n.targets[0].id] = n.value
+    flags = {k: v for k, v in flags.items() if counts[k] == 1}
+    if not flags:
+        return list(fn.body)
+
+    class R(ast.NodeTransformer):
+        def visit_If(self, node):
+            node.test = T().visit(node.test)
+            self.generic_visit(node)
+            return node
+
+        def visit_IfExp(self, node):
+            node.test = T().visit(node.test)
+            self.generic_visit(node)
+            return node
+
+    class T(ast.NodeTransformer):
+        def visit_Name(self, node):
+            if isinstance(node.ctx, ast.Load) and node.id in flags:
+                return copy.deepcopy(flags[node.id])
+            return node
+    body = [R().visit(copy.deepcopy(s)) for s in fn.body]
+    out = []
+    for s in body:
+        if isinstance(s, ast.Assign) and len(s.targets) == 1 and isinstance(s.targets[0], ast.Name) and s.targets[0].id in flags:
+            continue
+        out.append(s)
+    return out
+
+
 def _kind(conds: dict[str, bool]) -> str | None:
     known: dict[str, bool] = {}
     for text, truth in conds.items():
